@@ -171,6 +171,7 @@ type sentMsg struct {
 	lie       int
 	enc       string
 	truncated bool
+	overrun   bool // class B: the message ends beyond the client's stream window
 }
 
 type recvRec struct {
@@ -236,6 +237,8 @@ type run struct {
 	cntPulled map[cntKey]int64
 	abrupt  bool // the peer closed a connection abruptly on purpose
 	spies   map[int]*spyConn
+	t0        time.Time
+	closingAt time.Time
 }
 
 // spyConn is the client's end of a connection as handed to grpc: it records
@@ -316,6 +319,7 @@ func Run(e *core.Env, sc *Scenario) {
 		qsig: make(chan struct{}, 1), qstop: make(chan struct{}), qdone: make(chan struct{}), cntPulled: map[cntKey]int64{}, spies: map[int]*spyConn{}}
 	w.faulty = len(sc.Faults) > 0
 	w.trace = sc.has("trace")
+	w.t0 = time.Now()
 	w.net = simnet.New(e, sc.Net, sc.Faults)
 	w.led = tap.NewLedger(e, w)
 	w.led.CheckWindows = sc.has("windows")
@@ -443,6 +447,7 @@ func Run(e *core.Env, sc *Scenario) {
 	if w.settle() {
 		w.atQuiescence(true)
 	}
+	w.closingAt = time.Now()
 	w.checkAtEnd()
 	if sc.has("stacks") {
 		e.LogStacks("at the end")
@@ -869,6 +874,12 @@ type cstream struct {
 // openForClient: the stream still counts against MAX_CONCURRENT_STREAMS from
 // the client's point of view: not reset by either side and the server has not
 // ended it (a gRPC client is done with a stream once the trailers arrived).
+func (s *cstream) markClosed() {
+	if s.closedAt.IsZero() {
+		s.closedAt = time.Now()
+	}
+}
+
 func (s *cstream) openForClient() bool { return !(s.cRst || s.pRstD || s.pEndedD) }
 
 type goAwayRec struct {
@@ -905,10 +916,11 @@ type cview struct {
 	cliGoAwayAt time.Time
 	cliGoAway   bool
 	srvDead     bool // the tap could not decode the server's bytes any more
+	rl          *recvLedger
 }
 
 func newCView(w *run, idx int) *cview {
-	return &cview{w: w, idx: idx, streams: map[uint32]*cstream{}, mcs: -1, fences: map[[8]byte]int{}}
+	return &cview{w: w, idx: idx, streams: map[uint32]*cstream{}, mcs: -1, fences: map[[8]byte]int{}, rl: newRecvLedger()}
 }
 
 func (v *cview) goAwayMin() (uint32, bool) {
@@ -942,6 +954,9 @@ func (w *run) sink(f *tap.Frame) {
 	case f.From == 's' && f.Phase == 'w':
 		v.peerWrote(f)
 	}
+	if w.sc.has("recvflow") {
+		w.c04Sink(v, f)
+	}
 }
 
 func (v *cview) peerWrote(f *tap.Frame) {
@@ -974,11 +989,13 @@ func (v *cview) delivered(f *tap.Frame) {
 	case http2.FrameRSTStream:
 		if s := v.streams[f.StreamID]; s != nil {
 			s.pRstD = true
+			s.markClosed()
 		}
 	case http2.FrameData, http2.FrameHeaders:
 		if f.EndStream() {
 			if s := v.streams[f.StreamID]; s != nil {
 				s.pEndedD = true
+				s.markClosed()
 			}
 		}
 	case http2.FrameGoAway:
@@ -1068,6 +1085,7 @@ func (v *cview) clientWrote(f *tap.Frame) {
 		if s := v.streams[f.StreamID]; s != nil {
 			s.cRst = true
 			s.part = false
+			s.markClosed()
 		}
 	case http2.FrameSettings:
 		if f.Ack() && len(v.mcsPending) > 0 {
@@ -1254,6 +1272,9 @@ func (w *run) atQuiescence(final bool) {
 	}
 	if w.sc.has("deadline") {
 		w.checkDeadlines()
+	}
+	if w.sc.has("recvflow") {
+		w.c04Quiescent()
 	}
 	if w.sc.has("live") {
 		w.checkLiveness()
